@@ -26,4 +26,8 @@ METHODS = [
       dict(func="pack", prop="C02", theorem="src_UDP_pack"),
       dict(func="unpack", prop="C02", theorem="src_UDP_unpack"),
   ]),
+  dict(file="AcraNetwork/Pcap.py", cls="PcapRecord", lean="PcapRecord", methods=[
+      dict(func="pack", prop="C05", theorem="src_PcapRecord_pack"),
+      dict(func="unpack", prop="C05", theorem="src_PcapRecord_unpack"),
+  ]),
 ]
